@@ -3,12 +3,117 @@ import DS.Lemmas.Formats
 
 /-!
 # C04 — writing a structure and reading it back preserves everything the format carries
+
+Text layer (all inputs, all widths and precisions) and per-format round trips
+`readStr(writeStr(s, f), f)` at the string level, on the exact-decimal models of
+`DS.Model.Dec` / `DS.Model.Formats`.  `quant_f` rounds every carried quantity to the printed
+precision and normalises text fields the way the reader does; `repr_f` is the decidable
+representable range the proof needed.
 -/
 namespace DS.Props.C04
 open DS.Dec DS.Formats
 
+/-! ## Stage 1: exact decimal text layer -/
+
 /-- `float("%w.pf" % x)` is `x` rounded half-even to `p` decimals, for every width `w` -/
 theorem parseDec_fmtF (w p : Nat) (x : Rat) : pyFloat (fmtF w p x) = some (roundTo p x) :=
   pyFloat_fmtF w p x
+
+/-- the printed number is within half a unit of the last printed place -/
+theorem roundTo_error (p : Nat) (x : Rat) : |roundTo p x - x| ≤ 1 / (2 * ((10 ^ p : Nat) : Rat)) :=
+  DS.Dec.roundTo_error p x
+
+/-- a printed number re-prints to itself -/
+theorem roundTo_idem (p : Nat) (x : Rat) : roundTo p (roundTo p x) = roundTo p x :=
+  DS.Dec.roundTo_idem p x
+
+/-- `float("%.Pg" % x)` is the number `%.Pg` denotes, for every precision -/
+theorem parseDec_fmtG (P : Nat) (x : Rat) : parseDec (fmtG P x) = some (roundSig P x) :=
+  DS.Dec.parseDec_fmtG P x
+
+/-- `" ".join(tokens).split() == tokens` for non-empty blank-free tokens -/
+theorem split_join (toks : List Str) (h : ∀ t ∈ toks, IsTok t) : splitWs ([' '].intercalate toks) = toks :=
+  DS.Dec.split_join toks h
+
+/-- fixed columns: the slice `[i:j]` of a line is the field that occupies these columns -/
+theorem slice_fixed {A F R : Str} {i j : Nat} (hA : A.length = i) (hF : F.length = j - i) :
+    slice i j (A ++ (F ++ R)) = F :=
+  slice_mid hA hF
+
+/-- `parse(tostring(lines))` hands `parseLines` the lines `toLines` produced -/
+theorem text_lines (L : List Str) (hne : L ≠ []) (h : ∀ l ∈ L, NoNL l) (hlast : L.getLast hne ≠ []) :
+    ofText (toText L) = L :=
+  ofText_toText L hne h hlast
+
+/-! ## Stage 2: per-format round trips (string level) -/
+
+theorem roundtrip_xyz (d : XyzS) (h : reprXyz d = true) : parseTextXyz (writeTextXyz d) = .ok (quantXyz d) :=
+  DS.Formats.roundtrip_xyz d h
+
+example : reprXyz ⟨"NaCl  ".toList, [⟨"Na1+".toList, 0, 1/2, -1/3⟩, ⟨"Cl".toList, 1/2, 1/2, 1/2⟩]⟩ = true := by decide
+example : reprXyz ⟨[], []⟩ = true := by decide
+
+theorem roundtrip_rawxyz (d : List PAtom) (h : reprRaw d = true) : parseTextRaw (writeTextRaw d) = .ok (quantRaw d) :=
+  DS.Formats.roundtrip_rawxyz d h
+
+example : reprRaw [⟨"Na1+".toList, 0, 1/2, -1/3⟩, ⟨"Cl".toList, 1/2, 1/2, 1/2⟩] = true := by decide
+example : reprRaw [⟨[], 0, 1/2, -1/3⟩, ⟨[], 1/2, 1/2, 1/2⟩] = true := by decide
+
+theorem roundtrip_discus (d : DiscusS) (h : reprDiscus d = true) :
+    parseTextDiscus (writeTextDiscus d) = .ok (quantDiscus d) :=
+  DS.Formats.roundtrip_discus d h
+
+example : reprDiscus ⟨"Ni fcc".toList, "F m -3 m".toList, 25, 0, ⟨3, 3, 3, 90, 90, 90⟩,
+    [⟨"Ni".toList, ⟨0, 1/2, 1/2⟩, 1/3⟩]⟩ = true := by decide
+
+theorem roundtrip_pdffit (d : PdffitS) (h : reprPdffit d = true) :
+    parseTextPdffit (writeTextPdffit d) = .ok (quantPdffit d) :=
+  DS.Formats.roundtrip_pdffit d h
+
+example : reprPdffit ⟨"Ni fcc".toList, 1, 0, 0, 1, 0, "Fm-3m".toList, 0, 12, ⟨3, 3, 3, 90, 90, 120⟩, ⟨0, 0, 0, 0, 0, 0⟩,
+    [⟨"Na1+".toList, ⟨0, 1/2, 1/2⟩, 1/3, ⟨0, 0, 0⟩, 0, ⟨1/100, 1/100, 1/50⟩, ⟨0, 0, 0⟩, ⟨1/200, 0, 0⟩, ⟨0, 0, 0⟩⟩]⟩ = true := by
+  decide
+
+theorem roundtrip_pdb (d : PdbS) (h : reprPdb d = true) : parseTextPdb (writeTextPdb d) = .ok (quantPdb d) :=
+  DS.Formats.roundtrip_pdb d h
+
+/-- non-vacuity of `roundtrip_pdb` (negative and column-filling coordinates, ANISOU, CRYST1) -/
+theorem roundtrip_pdb_example : reprPdb exPdb = true := exPdb_repr
+
+/-- the column-width conditions of `reprPdb`, numerically: a value whose rounded magnitude has at
+most `d` integer digits fits `%w.pf` when `sign + d + 1 + p ≤ w` -/
+theorem pdb_fits_of_bound (w p d : Nat) (x : Rat) (hd : 1 ≤ d) (hp : 1 ≤ p) (hm : scaledAbs p x < 10 ^ (d + p))
+    (hw : (if x < 0 then 1 else 0) + d + 1 + p ≤ w) : fitsF w p x = true :=
+  fitsF_of_bound w p d x hd hp hm hw
+
+/-! ## second round trip: the re-read structure is a fixed point (no drift, growth or failure) -/
+
+/-- a number printed with `P` significant digits re-prints to itself -/
+theorem roundSig_idem (P : Nat) (x : Rat) : roundSig P (roundSig P x) = roundSig P x :=
+  DS.Dec.roundSig_idem P x
+
+theorem idem_xyz (d : XyzS) (h : reprXyz d = true) : parseTextXyz (writeTextXyz (quantXyz d)) = .ok (quantXyz d) :=
+  DS.Formats.idem_xyz d h
+
+theorem idem_rawxyz (d : List PAtom) (h : reprRaw d = true) : parseTextRaw (writeTextRaw (quantRaw d)) = .ok (quantRaw d) :=
+  DS.Formats.idem_rawxyz d h
+
+theorem idem_discus (d : DiscusS) (h : reprDiscus d = true) :
+    parseTextDiscus (writeTextDiscus (quantDiscus d)) = .ok (quantDiscus d) :=
+  DS.Formats.idem_discus d h
+
+theorem idem_pdffit (d : PdffitS) (h : reprPdffit d = true) :
+    parseTextPdffit (writeTextPdffit (quantPdffit d)) = .ok (quantPdffit d) :=
+  DS.Formats.idem_pdffit d h
+
+theorem idem_pdb (d : PdbS) (h : reprPdb d = true) : parseTextPdb (writeTextPdb (quantPdb d)) = .ok (quantPdb d) :=
+  DS.Formats.idem_pdb d h
+
+/-- the representable range is closed under the round trip (what was read can be written again) -/
+theorem repr_closed :
+    (∀ d, reprXyz d = true → reprXyz (quantXyz d) = true) ∧ (∀ d, reprRaw d = true → reprRaw (quantRaw d) = true) ∧
+    (∀ d, reprDiscus d = true → reprDiscus (quantDiscus d) = true) ∧
+    (∀ d, reprPdffit d = true → reprPdffit (quantPdffit d) = true) ∧ (∀ d, reprPdb d = true → reprPdb (quantPdb d) = true) :=
+  ⟨reprXyz_quant, reprRaw_quant, reprDiscus_quant, reprPdffit_quant, reprPdb_quant⟩
 
 end DS.Props.C04
